@@ -115,8 +115,16 @@ class Ctx(object):
             "nontrivial": self.nontrivial, "samples": self.samples,
             "violations": self.violations, "nviol": self.nviol,
             "counters": dict(self.counters), "notes": self.notes,
-            "wall": time.time() - self.t0,
+            "wall": time.time() - self.t0, "maxrss_mb": _maxrss_mb(),
         }
+
+
+def _maxrss_mb():
+    try:
+        import resource
+        return resource.getrusage(resource.RUSAGE_SELF).ru_maxrss // 1024
+    except Exception:
+        return 0
 
 
 def _run_shard_pyopt(args):
@@ -169,10 +177,59 @@ def _run_shard_pyopt(args):
     return r
 
 
+_GUARD = {"on": False, "trips": 0}
+
+
+class ShardStop(BaseException):
+    """Raised (asynchronously, by the guard thread) to end a shard whose calls keep running away with memory: what the monitors recorded so
+    far is returned."""
+
+
+def _start_guard():
+    """Per-process guard thread.  (1) A worker whose parent has gone (watchdog kill, interrupted run) ends itself instead of running on as an
+    orphan.  (2) Memory: when the resident set of this process passes VERIF_RSS_LIMIT_MB (default 2048; the checks themselves stay far
+    below: the peak is reported in the evidence notes) a MemoryError is raised asynchronously in the main thread - where it lands decides the verdict like any other exception: inside
+    the library on a valid call it is a violation (runaway allocation instead of a result), inside the harness it is a harness failure
+    (inconclusive).  This is a resource bound, not a wall-clock verdict.  If memory keeps growing regardless, the process exits (the pool
+    reports the dead worker: inconclusive) before the machine does."""
+    if _GUARD["on"]:
+        return
+    _GUARD["on"] = True
+    import threading
+    import ctypes
+    parent = os.getppid()
+    main_id = threading.main_thread().ident
+    limit = int(os.environ.get("VERIF_RSS_LIMIT_MB", "2048")) * (1 << 20)
+    page = os.sysconf("SC_PAGE_SIZE")
+
+    def rss():
+        try:
+            with open("/proc/self/statm") as f:
+                return int(f.read().split()[1]) * page
+        except Exception:
+            return 0
+
+    def watch():
+        fired = 0
+        while True:
+            time.sleep(0.5)
+            if os.getppid() != parent:
+                os._exit(87)
+            r = rss()
+            if r > limit and (not fired or time.time() - fired > 5):
+                fired = time.time()
+                _GUARD["trips"] += 1
+                ctypes.pythonapi.PyThreadState_SetAsyncExc(ctypes.c_ulong(main_id), ctypes.py_object(MemoryError if _GUARD["trips"] <= 3 else ShardStop))
+            if r > 2 * limit:
+                os._exit(86)
+    threading.Thread(target=watch, name="vf-guard", daemon=True).start()
+
+
 def _run_shard(args):
     prop, tier, seed, name, kwargs, budget = args
     if kwargs.get("_pyopt"):
         return _run_shard_pyopt(args)
+    _start_guard()
     # the interpreter's default recursion limit is left alone: it is part of what a user of the library gets
     ctx = Ctx(prop, tier, seed, name)
     if budget:
@@ -182,6 +239,13 @@ def _run_shard(args):
         mod.run(ctx, name, **kwargs)
         from vf import gen as _gen
         _gen.audit_issued(ctx)
+    except ShardStop:
+        r = ctx.result()
+        ctx.count("shard_stopped_after_repeated_memory_trips")
+        if not r["violations"]:
+            r["crash"] = "shard stopped: resident set passed the bound %d times and no monitor had fired" % _GUARD["trips"]
+        r["counters"] = dict(ctx.counters)
+        return r
     except Exception as e:
         # An exception that was RAISED INSIDE the library and escaped through a call the harness makes unguarded (unguarded = the
         # inputs are valid and the call has to succeed) is an observation about the library, not a harness failure.  Anything
@@ -332,6 +396,7 @@ def run_property(prop, tier, seed, jobs=None, only=None):
             "known_findings_seen": list(seen_known.keys()),
             "missing_required_classes": missing,
             "notes": notes[:20],
+            "peak_resident_set_mb_of_any_worker": max([int(r.get("maxrss_mb") or 0) for r in results] or [0]),
         },
         "assumptions": getattr(mod, "ASSUMPTIONS", []),
         "wall_s": round(wall, 2),
